@@ -45,6 +45,12 @@ def enum_part(out):
             out.violation('enum-literals:' + str(c['model'].get('normalization')).lower(), desc, rp)
         else:
             out.inconc(f"enum literal counterexample {c['model']} did not reproduce natively")
+    if not cands:
+        # native sample on every run (the schema front ends are outside the kernel): enum definitions next to a body-less enum
+        ok, desc, rp = AC.confirm_enum_literals(C, dict(values=['??'], normalization='None'))
+        replayed += 1
+        if ok is False:
+            out.violation('native:enum-definitions', desc, rp)
     for w in R.inconclusive:
         out.inconc(w)
     ev = R.evidence()
